@@ -406,6 +406,15 @@ func poolHelpers(p *Prog) (acquire, release map[*ssa.Function]poolHelper) {
 							switch y := rr.(type) {
 							case *ssa.Return:
 								returned = true
+							case *ssa.MakeInterface:
+								// handed back as the interface the callers work with
+								if y.Referrers() != nil {
+									for _, r3 := range *y.Referrers() {
+										if _, ok := r3.(*ssa.Return); ok {
+											returned = true
+										}
+									}
+								}
 							case *ssa.Call:
 								if g := y.Call.StaticCallee(); g != nil && g.Name() == "Reset" && len(y.Call.Args) > 0 && y.Call.Args[0] == ssa.Value(ta) {
 									reset = true
@@ -423,6 +432,10 @@ func poolHelpers(p *Prog) (acquire, release map[*ssa.Function]poolHelper) {
 					v := c.Call.Args[1]
 					if mi, ok := v.(*ssa.MakeInterface); ok {
 						v = mi.X
+					}
+					// the parameter may arrive as an interface and be asserted back to the pooled type
+					if ta, ok := v.(*ssa.TypeAssert); ok {
+						v = ta.X
 					}
 					for i, prm := range f.Params {
 						if prm == v {
